@@ -185,9 +185,47 @@ func runC04(c C04Case, o *run.Obs) error {
 
 // small-scope exhaustive: every insertion order of n<=5 keys and every
 // deletion order from n+2 keys down to n, for every layer table in {0,1,2}^n+2, bf in {2,3}.
+// enumThresholds: for every branch factor 2..20, 32 and 64 and every power p = bf^h up to 1300, a tree of the uint64 keys 0..p+2
+// (key p has layer h) is taken from p+3 entries down to p entries one delete at a time, persisting at p+2, p+1 (height
+// must still be h: size-1 = bf^h) and p (one level less); the second history reaches the same final set directly.
+func enumThresholds(shard, nshards int, yield func(C04Case) bool) bool {
+	count := 0
+	bfs := []uint{2, 3, 4, 5, 6, 7, 8, 9, 10, 11, 12, 13, 14, 15, 16, 17, 18, 19, 20, 32, 64}
+	for _, bf := range bfs {
+		for p := int(bf); p <= 1300; p *= int(bf) {
+			for _, format := range core.Formats {
+				count++
+				if count%nshards != shard || (format == ref.FormatV1 && p > 300) {
+					continue
+				}
+				cfg := core.Config{BF: bf, Format: format, Key: core.KUint64, Val: core.VInt, Cache: "none", Marshaler: "json", Big: p + 3}
+				histA := []core.Op{{Kind: core.OpBulkIns, K: 0, V: 0, N: p + 3}, {Kind: core.OpPersist},
+					{Kind: core.OpDelete, K: 0, Raw: true}, {Kind: core.OpPersist},
+					{Kind: core.OpDelete, K: 0, Raw: true}, {Kind: core.OpPersist},
+					{Kind: core.OpDelete, K: 0, Raw: true}, {Kind: core.OpPersist},
+					{Kind: core.OpInsert, K: 1, V: 2, Raw: true}, {Kind: core.OpPersist}, // back above the threshold: the level returns
+					{Kind: core.OpDelete, K: 0, Raw: true}}
+				var target [][2]int
+				for k := 3; k < p+3; k++ {
+					target = append(target, [2]int{k, k % 4})
+				}
+				histB := []core.Op{{Kind: core.OpBulkIns, K: 3, V: 1, N: p / 2}}
+				perm := idx(p + 3)
+				if !yield(C04Case{Cfg: cfg, Target: target, HistA: histA, HistB: histB, PermA: perm, PermB: perm}) {
+					return false
+				}
+			}
+		}
+	}
+	return true
+}
+
 func enumC04(tier string, shard, nshards int, yield func(C04Case) bool) (bool, string) {
-	if tier != "thorough" {
+	if !enumThresholds(shard, nshards, yield) {
 		return false, ""
+	}
+	if tier != "thorough" {
+		return false, "size thresholds: bf in 2..20, 32, 64 x every power bf^h <= 1300: trees of bf^h+3 consecutive keys deleted down to bf^h entries one at a time (and back up), persisted at every size"
 	}
 	count := 0
 	for _, bf := range []uint{2, 3} {
